@@ -32,6 +32,7 @@ type Oblig struct {
 	Vacuity bool
 	TimeoutS int // per-obligation solver timeout override
 	Hints    []*Term // ground integer terms offered for hypothesis instantiation
+	RefHints []*Term // ground reference terms (values of pointer locals) offered likewise
 	Script     string // rendered SMT-LIB query (renderOblig)
 	CandScript string // query with the quantified facts dropped (candidate counterexamples)
 	Trivial    bool   // discharged by the simplifier
@@ -369,6 +370,9 @@ func (fr *Frame) oblige(kind string, ord int, suffix string, tags []string, st *
 		if v.K == KScalar && v.S.sort == SInt && v.S.kind != 'c' && v.T != nil {
 			if _, _, isInt := intRange(v.T); isInt && len(o.Hints) < 8 {
 				o.Hints = append(o.Hints, v.S)
+			} else if isRefType(v.T) && len(o.RefHints) < 6 {
+				// current values of pointer locals (cursors of list / tree walks)
+				o.RefHints = append(o.RefHints, v.S)
 			}
 		}
 	}
@@ -719,6 +723,7 @@ func (fr *Frame) execAlloc(x *ssa.Alloc, st *State) Val {
 	switch u := et.Underlying().(type) {
 	case *types.Struct:
 		r := st.freshRef("new_" + shortTypeName(et))
+		st.assume(Eq(RefTag(r), tagOfStruct(et)))
 		addr := &Addr{Kind: AField, Ref: r, Key: fieldKey(et, ""), T: et}
 		st.store(addr, zeroVal(et))
 		fr.noteType(r, et, st)
@@ -732,6 +737,9 @@ func (fr *Frame) execAlloc(x *ssa.Alloc, st *State) Val {
 			z := zeroOfSort(l.sort)
 			st.setH(key, Store(h, a, ConstArr(ArrSort(SInt, l.sort), z)))
 		}
+		// specifications name the variable: its value is the array (id), the contents live in the element heap
+		cellID(x)
+		st.cells[x] = scalar(a, et)
 		return scalar(a, x.Type())
 	}
 	// plain cell
@@ -771,6 +779,18 @@ func (fr *Frame) storeTo(ins ssa.Instruction, addr Val, v Val, st *State) {
 		// pointer to a heap struct: whole-struct store
 		et, _ := derefStruct(addr.T)
 		if et == nil {
+			if p, ok := addr.T.Underlying().(*types.Pointer); ok {
+				if at, isArr := p.Elem().Underlying().(*types.Array); isArr && v.K == KScalar {
+					// *p = arrayValue: arrays are values, the row is copied
+					fr.panicCheck("panic.nil", ins, st, Neq(addr.S, IntLit(0)), "store through nil pointer")
+					for _, l := range shapeOf(at.Elem()) {
+						key := elemKey(at.Elem()) + l.suffix
+						h := st.H(key, ArrSort(SInt, ArrSort(SInt, l.sort)))
+						st.setH(key, Store(h, addr.S, Select(h, v.S)))
+					}
+					return
+				}
+			}
 			panic(outsideSubset{"store through pointer of type " + addr.T.String()})
 		}
 		fr.panicCheck("panic.nil", ins, st, Neq(addr.S, IntLit(0)), "store through nil pointer")
@@ -791,8 +811,15 @@ func (fr *Frame) execUnOp(x *ssa.UnOp, st *State) Val {
 			et, _ := derefStruct(v.T)
 			if et == nil {
 				if p, ok := v.T.Underlying().(*types.Pointer); ok {
-					if _, isArr := p.Elem().Underlying().(*types.Array); isArr {
-						return scalar(v.S, p.Elem())
+					if at, isArr := p.Elem().Underlying().(*types.Array); isArr {
+						// loading an array value copies it: a fresh row with the same contents
+						a := st.freshArr("arrcopy")
+						for _, l := range shapeOf(at.Elem()) {
+							key := elemKey(at.Elem()) + l.suffix
+							h := st.H(key, ArrSort(SInt, ArrSort(SInt, l.sort)))
+							st.setH(key, Store(h, a, Select(h, v.S)))
+						}
+						return scalar(a, p.Elem())
 					}
 				}
 				panic(outsideSubset{"load through pointer of type " + v.T.String()})
@@ -1119,7 +1146,7 @@ func (fr *Frame) execTypeAssert(x *ssa.TypeAssert, st *State) Val {
 	}
 	if isRefType(x.AssertedType) {
 		// an interface whose dynamic type is a pointer/map type holds a well-typed reference (as for any loaded pointer)
-		st.assume(Implies(ok, wellTyped(res, st)))
+		st.assume(Implies(ok, And(wellTyped(res, st), refTagFact(res))))
 	}
 	if x.CommaOk {
 		z := zeroVal(x.AssertedType)
@@ -1269,6 +1296,7 @@ func mapDelete(st *State, mi mapInfo, m, k *Term) {
 func (fr *Frame) execMakeMap(x *ssa.MakeMap, st *State) Val {
 	mi := mapInfoOf(x.Type())
 	m := st.freshRef("map")
+	st.assume(Eq(RefTag(m), tagOfStruct(x.Type()))) // a map object is not an object of any struct type
 	st.setH(mi.key+".dom", Store(mi.domH(st), m, ConstArr(ArrSort(mi.ks, SBool), False)))
 	st.setH(mi.key+".card", Store(mi.cardH(st), m, IntLit(0)))
 	return scalar(m, x.Type())
